@@ -1,3 +1,3 @@
 #!/bin/bash
 cd "$(dirname "$0")/../.."
-TIER=thorough SEEDS="1" CHECKS="${CHECKS:-C01 C02 C03 C04 C05 C06 C08 C10 C11 C13 C16 C17 C19 C20}" exec ./tools/bg/seeds_sweep.sh
+TIER=thorough SEEDS="1" CHECKS="${CHECKS:-C01 C02 C03 C04 C05 C06 C07 C08 C09 C10 C11 C12 C13 C14 C15 C16 C17 C19 C20}" exec ./tools/bg/seeds_sweep.sh
